@@ -248,7 +248,7 @@ def derived(ctx):
         fi, paths = run_on(ctx, mk, 'quantifiers', lambda s: ())
         def okq(pr, s):
             r = pr.value
-            parts = getattr(r, 'parts', None)
+            parts = r.parts if isinstance(r, SeqE) else (list(r) if isinstance(r, (tuple, list)) else None)      # a SeqE, or a tuple display with starred parts
             if parts is None: return False
             parts = [p.spec if isinstance(p, X.SegTok) else p for p in parts]
             return len(parts) == 2 and parts[0] is s.q and parts[1] == Spec('quantifiers', s.s)
